@@ -7,6 +7,14 @@ set_rotation_matrix is read from the live MRO of the current working tree and wr
 lean/MenpoModel/Generated/C05Dispatch.lean.  lean/MenpoModel/GenProps/C05.lean states the
 obligations (`decide`) that tie the table to `MenpoModel.C05.expectedDispatch`, over which the Core
 model is assembled and the theorems are proved.
+
+A second table, lean/MenpoModel/Generated/C05Effects.lean, is *measured*: specimens of every class are
+built through the public constructors, every array they reach is recorded (object identity + bytes), and
+`copy()`, `from_vector_inplace(v)` and `from_vector(v)` are run on them.  Per class: which buffers are
+fresh in the copy (no shared memory), which old arrays `_from_vector_inplace` changed (written in place),
+which attributes refer to a new array afterwards (rebound), whether `from_vector` changed any array of its
+receiver, and which arrays of the result still share memory with the receiver.  GenProps/C05.lean proves
+that the measured table equals `MenpoModel.C05.expectedEffects`, the table the heap theorems are about.
 """
 
 METHODS = ["from_vector", "_from_vector_inplace", "_as_vector", "copy", "n_parameters", "_set_h_matrix",
@@ -59,6 +67,184 @@ def _sup(s):
         return ".absent"
     return "." + s if s in SUPPLIERS else ".unknown"
 
+# ----------------------------------------------------------------------------- measured effects table
+
+BUFS = ["points", "pixels", "hMatrix", "target", "source", "mask", "carried"]    # MenpoModel.C05.allBufs
+_PATH_BUF = {"points": "points", "pixels": "pixels", "_h_matrix": "hMatrix", "_target.points": "target",
+             "_source.points": "source", "mask.pixels": "mask"}
+N_SPECIMENS = 3
+
+
+def buf_of_path(path):
+    return _PATH_BUF.get(path, "carried")
+
+
+def leaves(o, path="", out=None, seen=None):
+    """every ndarray the object reaches: {attribute path: array}"""
+    import numpy as np
+    import scipy.sparse as sp
+    if out is None:
+        out, seen = {}, set()
+    if isinstance(o, np.ndarray):
+        out[path] = o
+    elif sp.issparse(o):
+        for k in ("data", "indices", "indptr", "row", "col"):
+            if isinstance(getattr(o, k, None), np.ndarray):
+                out[path + "." + k] = getattr(o, k)
+    elif isinstance(o, dict):
+        for k, v in o.items():
+            leaves(v, path + "[%r]" % (k,), out, seen)
+    elif isinstance(o, (list, tuple)):
+        for i, v in enumerate(o):
+            leaves(v, path + "[%d]" % i, out, seen)
+    elif hasattr(o, "__dict__") and id(o) not in seen:
+        seen.add(id(o))
+        for k, v in sorted(o.__dict__.items()):
+            leaves(v, (path + "." if path else "") + k, out, seen)
+    return out
+
+
+def specimens(name):
+    """deterministic recipes (harness.c05 generators, fixed seed): landmarks attached wherever the class can
+    carry them, vectorizable dimension, MaskedImage with an all-true and with a partial mask"""
+    import random
+    from . import c05
+    rng = random.Random("C05-effects-" + name)
+    out, want_masks = [], ["all", "sparse", "sparse"]
+    for _ in range(4000):
+        if len(out) == N_SPECIMENS:
+            break
+        rc = c05.gen_recipe(rng, name)
+        rc.pop("life", None)
+        if not c05.vectorizable_dim(rc):
+            continue
+        if name not in c05.XFS and not rc.get("landmarks"):
+            continue
+        if name in c05.IMAGES:
+            if rc.get("dtype") not in ("float64", "bool"):
+                continue
+            flat = _flat(rc["mask"]) if "mask" in rc else None
+            if name == "MaskedImage":
+                kind = want_masks[len(out)]
+                if kind == "all" and not all(flat):
+                    continue
+                if kind == "sparse" and (all(flat) or not any(flat)):
+                    continue
+            if name == "BooleanImage" and len(flat) < 2:
+                continue
+        out.append(rc)
+    return out
+
+
+def _flat(x):
+    return [z for y in x for z in _flat(y)] if isinstance(x, list) else [x]
+
+
+def other_vector(o, name):
+    """a right-length vector differing from the object's own in every entry"""
+    import numpy as np
+    from . import c05
+    own = np.array(o.as_vector())
+    if name in ("Rotation", "AlignmentRotation"):
+        for q in c05.unit_quaternions():
+            q = np.array(q, dtype=float)
+            q /= np.sqrt(q.dot(q))
+            if np.min(np.abs(q - own)) > 0.05:
+                return q
+    if own.dtype == bool:
+        return ~own
+    return (own + 1).astype(own.dtype)
+
+
+def measure(name):
+    """the effects row of one class: dict of sorted buffer-name lists (union over the specimens)"""
+    import warnings
+    import numpy as np
+    from . import c05
+    row = {k: set() for k in ("has", "notfresh", "fviWrites", "fviRebinds", "fvWrites", "fvShares")}
+    for rc in specimens(name):
+        o = c05.build(rc)
+        L = leaves(o)
+        row["has"] |= {buf_of_path(p) for p in L}
+        # copy()
+        LC = leaves(o.copy())
+        for p, a in L.items():
+            if p not in LC or a.size == 0 or np.shares_memory(LC[p], a):
+                row["notfresh"].add(buf_of_path(p))
+        # from_vector_inplace on a specimen of its own
+        s = c05.build(rc)
+        v = other_vector(s, name)
+        LS = leaves(s)
+        snap = {p: a.tobytes() for p, a in LS.items()}
+        with warnings.catch_warnings():
+            warnings.simplefilter("ignore")
+            s.from_vector_inplace(v)
+        LA = leaves(s)
+        for p, a in LS.items():
+            if a.tobytes() != snap[p]:
+                row["fviWrites"].add(buf_of_path(p))
+            if p not in LA or not np.shares_memory(LA[p], a):
+                row["fviRebinds"].add(buf_of_path(p))
+        # from_vector on a specimen of its own
+        s = c05.build(rc)
+        v = other_vector(s, name)
+        LS = leaves(s)
+        snap = {p: a.tobytes() for p, a in LS.items()}
+        r = s.from_vector(v)
+        for p, a in LS.items():
+            if a.tobytes() != snap[p] or p not in leaves(s) or leaves(s)[p] is not a:
+                row["fvWrites"].add(buf_of_path(p))
+        for p, a in leaves(r).items():
+            if any(np.shares_memory(a, b) for b in LS.values()):
+                row["fvShares"].add(buf_of_path(p))
+    order = lambda xs: [b for b in BUFS if b in xs]
+    return {"has": order(row["has"]), "fresh": order(row["has"] - row["notfresh"]),
+            "fviWrites": order(row["fviWrites"]), "fviRebinds": order(row["fviRebinds"]),
+            "fvWrites": order(row["fvWrites"]), "fvShares": order(row["fvShares"])}
+
+
+_EFFECTS = {}
+
+
+def effects():
+    """[(class name, measured row)] in table order; cached per process"""
+    key = tuple(n for n, _ in table())
+    if key not in _EFFECTS:
+        rows = []
+        for n in key:
+            try:
+                rows.append((n, measure(n)))
+            except Exception as e:       # a class the specimen builder cannot handle: an unknown row
+                rows.append((n, {"error": "%s: %s" % (type(e).__name__, e)}))
+        _EFFECTS[key] = rows
+    return _EFFECTS[key]
+
+
+def _bl(xs):
+    return "[" + ", ".join("." + x for x in xs) + "]"
+
+
+def effects_lean():
+    rows = effects()
+    body, comment = [], []
+    for n, r in rows:
+        c = "." + n if n in CLS_ORDER else ".unknown"
+        if "error" in r:
+            body.append("  ⟨.unknown, [], [], [], [], [], []⟩")
+            comment.append("--   %s: NOT MEASURED (%s)" % (n, r["error"][:200].replace("\n", " ")))
+            continue
+        body.append("  ⟨%s, %s⟩" % (c, ", ".join(_bl(r[k]) for k in
+                                                 ("has", "fresh", "fviWrites", "fviRebinds", "fvWrites", "fvShares"))))
+    return ("/- REGENERATED by harness/extract_c05.py on every run of `./check C05`; do not edit.  MEASURED on live\n"
+            "   objects of the menpo working tree (%d specimens per class, every reachable array instrumented):\n"
+            "   Columns: buffers held, fresh in copy(), written in place by from_vector_inplace, rebound by\n"
+            "   from_vector_inplace, receiver arrays changed by from_vector, result arrays of from_vector that share\n"
+            "   memory with the receiver -/\n"
+            "import MenpoModel.Core.Vectorize\n\n"
+            "namespace MenpoModel.C05.Generated\nopen MenpoModel.C05\n\n"
+            "def effects : List EffRow := [\n" % N_SPECIMENS + ",\n".join(body) + " ]\n\n"
+            + "\n".join(comment) + ("\n\n" if comment else "") + "end MenpoModel.C05.Generated\n")
+
 
 def lean_files():
     rows = table()
@@ -74,10 +260,12 @@ def lean_files():
            "namespace MenpoModel.C05.Generated\nopen MenpoModel.C05\n\n"
            "def dispatch : List Row := [\n" + ",\n".join(body) + " ]\n\n"
            + comment + "\n\nend MenpoModel.C05.Generated\n")
-    props = ("/- Obligations over the regenerated method-resolution table (written by harness/extract_c05.py; the text\n"
-             "   is constant, the table it speaks about is not).  `dispatch_ok` is what makes every theorem of\n"
-             "   Props/C05.lean, proved over `expectedDispatch`, a statement about the current class hierarchy. -/\n"
-             "import MenpoModel.Generated.C05Dispatch\n\n"
+    props = ("/- Obligations over the regenerated tables (written by harness/extract_c05.py; the text is constant, the\n"
+             "   tables it speaks about are not).  `dispatch_ok` is what makes every theorem of Props/C05.lean, proved\n"
+             "   over `expectedDispatch`, a statement about the current class hierarchy; `effects_ok` is what makes the\n"
+             "   heap theorems (receiver purity, locality of in-place updates) statements about what the current code\n"
+             "   does to its arrays. -/\n"
+             "import MenpoModel.Generated.C05Dispatch\nimport MenpoModel.Generated.C05Effects\n\n"
              "namespace MenpoModel.C05.GenProps\nopen MenpoModel.C05\n\n"
              "/-- every concrete Vectorizable class resolves the seven methods exactly as the model assumes -/\n"
              "theorem dispatch_ok : Generated.dispatch = expectedDispatch := by decide\n\n"
@@ -86,9 +274,17 @@ def lean_files():
              "/-- for every class, `from_vector` is either a constructor rebuild or `copy()` + an in-place update that\n"
              "writes only into buffers the resolved `copy` makes fresh (receiver purity, see Props/C05.lean) -/\n"
              "theorem dispatch_pure : ∀ r ∈ Generated.dispatch, rowPure r = true := by decide\n\n"
+             "/-- what the live objects do to their arrays (copy freshness, in-place writes, rebindings, sharing between\n"
+             "receiver and result) is what the model's per-supplier tables predict through the method-resolution table -/\n"
+             "theorem effects_ok : Generated.effects = expectedEffects := by decide\n\n"
+             "/-- measured directly: no `from_vector` changed an array of its receiver, and every array a live\n"
+             "`_from_vector_inplace` wrote in place is fresh in the live `copy()` of that class -/\n"
+             "theorem effects_pure : ∀ e ∈ Generated.effects,\n"
+             "    e.fvWrites = [] ∧ e.fviWrites.all (fun b => e.fresh.contains b) = true := by decide\n\n"
              "end MenpoModel.C05.GenProps\n")
-    return {"MenpoModel/Generated/C05Dispatch.lean": gen, "MenpoModel/GenProps/C05.lean": props}
+    return {"MenpoModel/Generated/C05Dispatch.lean": gen, "MenpoModel/Generated/C05Effects.lean": effects_lean(),
+            "MenpoModel/GenProps/C05.lean": props}
 
 
-TARGETS = ["MenpoModel.Generated.C05Dispatch", "MenpoModel.GenProps.C05"]
-N_OBLIGATIONS = 3
+TARGETS = ["MenpoModel.Generated.C05Dispatch", "MenpoModel.Generated.C05Effects", "MenpoModel.GenProps.C05"]
+N_OBLIGATIONS = 5
